@@ -133,7 +133,7 @@ def audit_axioms(module, names, tag):
     return res, r.stdout
 
 
-def build_harness():
+def build_harness(race=False):
     hdir = os.path.join(VERIF, "harness")
     # go.sum of the implementation under test (replace => /repo)
     try:
@@ -141,10 +141,11 @@ def build_harness():
             dst.write(src.read())
     except OSError:
         pass
-    binp = os.path.join(WORK, "harness")
+    binp = os.path.join(WORK, "harness-race" if race else "harness")
     if os.path.exists(binp):
         os.remove(binp)
-    r = run(["go", "build", "-tags", "verif", "-o", binp, "."], cwd=hdir, env=GOENV)
+    cmd = ["go", "build"] + (["-race"] if race else []) + ["-tags", "verif", "-o", binp, "."]
+    r = run(cmd, cwd=hdir, env=GOENV)
     return r.returncode == 0, r.stdout, binp
 
 
